@@ -35,3 +35,8 @@ Q("cholguard-handled", "bfgsmats.py",
   "    try:\n        J = sp.linalg.cholesky(theta * STS + L @ invD @ L.T, lower=True)\n"
   "    except np.linalg.LinAlgError:\n        return None\n",
   ["CHOLGUARD"], note="the failure is handled (the caller would refresh the memory on None)")
+
+# finding 24 (pinned form): an accumulator that inherits the integer type of the point
+M("arrlike-accumulator-inherits-int", "benchmarks.py",
+  "    grad = np.zeros_like(x, dtype=np.result_type(x, float))\n", "    grad = np.zeros_like(x)\n", ["ARRLIKE"], canary=True,
+  note="pinned defect 24: beale_grad(np.array([1, -2, 3])) raised UFuncTypeError")
